@@ -16,7 +16,7 @@ func init() {
 		ID:    "C18",
 		Level: "exploration",
 		Rule: perco.RuleCommon + " C18 oracle (on responses, subsequent reads and a final model-independent dump of the write column): an acknowledged COMMIT needs, on every key, the txn's lock or its commit record " +
-			"(never a rollback record, never nothing); a COMMIT naming a rolled-back key commits no key; data of a rolled-back txn is never returned by a read; a committed value stays readable after any rollback/replay; " +
+			"(never a rollback record, never nothing); a COMMIT naming a rolled-back key commits no key; a refused COMMIT commits no key; data of a rolled-back txn is never returned by a read; a committed value stays readable after any rollback/replay; " +
 			"CHECK_TXN_STATUS never reports a committed txn rolled back or vice versa; a repeated request never changes decided state; no key holds both a commit and a rollback record of one txn; " +
 			"[start,commit] intervals of committed puts/deletes of one key are disjoint. Non-trivial case = at least one commit-after-rollback attempt, rollback-after-commit attempt or repeated/replayed state-changing request was applied; distinct = distinct request-kind traces",
 		Assumptions:      perco.Assumptions,
